@@ -72,6 +72,40 @@ def run(ctx):
                                                  start=s, level=l, segs=[[m, d.hex()] for m, d in segs][:50],
                                                  expected=f"smallest adequate version {want}", observed=obs),
                  tag="P3:" + ("overflow" if want == "none" else "v%s" % ((int(want) - 1) // 10)), sample=dict(start=s, level=l, segs=seg_counts(segs)[:40], version=want))
+    # one long-lived object: fit, change the level and/or add data, fit again - the fit must follow the CURRENT level and data
+    from qrcode import util as U
+    hreq, hmeta = [], []
+    for _ in range(300 if tier == "thorough" else 100):
+        q = qrcode.QRCode(version=rnd.choice([None, None, 1, 3, 9]), error_correction=rnd.randrange(4), mask_pattern=0)
+        segs = []
+        trail = []
+        for step in range(rnd.randrange(2, 5)):
+            ch = rnd.choice(["level", "data", "both", "none"]) if step else "data"
+            if ch in ("level", "both"):
+                q.error_correction = rnd.randrange(4)
+            if ch in ("data", "both"):
+                m = rnd.choice([1, 2, 4]); d = gens.mode_payload(rnd, m, rnd.choice([1, 8, 15, 17, 30, 44, 100, 300]), 2)
+                q.add_data(U.QRData(d, mode=m, check_data=False)); segs.append((m, d))
+            start = q._version or 0
+            use_make = rnd.random() < 0.5
+            try:
+                if use_make:
+                    q.make(fit=True)
+                else:
+                    q.best_fit(start=q._version)
+                obs = str(q._version)
+            except Exception as e:  # noqa
+                obs = "none" if err_name(e) == "DataOverflowError" else err_name(e)
+            hreq.append(f"spec.minversion {start} {q.error_correction} {seg_counts(segs)}")
+            hmeta.append((list(trail), start, q.error_correction, seg_counts(segs), "make" if use_make else "best_fit", obs))
+            trail.append((ch, q.error_correction, len(segs), obs))
+            if obs == "none":
+                break
+    for meta, rep in zip(hmeta, ask(hreq)):
+        trail, start, lvl, sc, how, obs = meta
+        want = rep[3:]
+        R.oracle(f"history {meta}", obs == want, dict(input=f"one object, earlier steps (change, level, segments, version)={trail}; then {how} from version {start or None} at level {lvl} with segments {sc[:120]}",
+                                                      expected=f"version {want}", observed=obs), tag="P3:history")
     # make() with fit on compile cases
     cases = [c for c in gens.random_cases(rnd, 400 if tier == "thorough" else 120, max_len=300) if c["fit"]]
     recs = enc.run_cases(cases, jobs=8 if tier == "thorough" else 2)
